@@ -193,3 +193,40 @@ Theorem C05_blocking_returns_composed_partial : forall pers blk fx caps fa cls,
   ComposeLive.CProg c.
 Proof. exact ComposeLive.blocking_progress_composed. Qed.
 Print Assumptions C05_blocking_returns_composed_partial.
+
+(** ** Round "proofs 3" *)
+From WM Require GoChannel.ComposeTrace.
+(** the one-in-flight acceptor accepts the history of every subscription of every composed run
+    (repaired loop) *)
+Theorem C05_one_in_flight_acceptor_sound_composed : forall pers blk fx caps cls x,
+  Monitor.mon_one_in_flight
+    (MonitorSound.trace x (sinit (caps x) true)
+       (Compose.sub_labels x (Compose.cinit pers blk fx caps true) cls)) = [].
+Proof. exact ComposeTrace.one_in_flight_acceptor_sound_composed. Qed.
+Print Assumptions C05_one_in_flight_acceptor_sound_composed.
+
+(** termination half of "every Publish returns" in the composition, per component (the combined
+    measure - spawned Senders paid for by a weight on the registry measure - is the part that is
+    still missing; the full statement is [ComposeMeasure.blocking_returns_composed_statement]) *)
+From WM Require GoChannel.SubMeasure GoChannel.ComposeMeasure.
+Theorem C05_composed_registry_step_decreases : forall pers blk fx caps fa cls l c',
+  let c := Compose.crun (Compose.cinit pers blk fx caps fa) cls in
+  RegLive.internal l = true -> Compose.cstep c (Compose.CReg l) = Some c' ->
+  RegLive.measure (Compose.cg c') < RegLive.measure (Compose.cg c).
+Proof. exact ComposeMeasure.composed_reg_step_decreases. Qed.
+Print Assumptions C05_composed_registry_step_decreases.
+Theorem C05_composed_sender_step_decreases : forall pers blk fx caps fa cls x l c',
+  let c := Compose.crun (Compose.cinit pers blk fx caps fa) cls in
+  SubMeasure.moving l = true -> Compose.cstep c (Compose.CSub x l) = Some c' ->
+  SubLive.measure (sent (Compose.cg c)) (Compose.ci c' x) < SubLive.measure (sent (Compose.cg c)) (Compose.ci c x)
+  /\ Compose.cg c' = Compose.cg c /\ (forall y, y <> x -> Compose.ci c' y = Compose.ci c y).
+Proof. exact ComposeMeasure.composed_sub_step_decreases. Qed.
+Print Assumptions C05_composed_sender_step_decreases.
+(** ... and the safety half of the full statement: nothing enabled (consumers included), no
+    writer pending or holding ==> no Publish is under way *)
+Theorem C05_stuck_means_published : forall pers blk fx caps fa cls,
+  let c := Compose.crun (Compose.cinit pers blk fx caps fa) cls in
+  writer (Compose.cg c) = None -> wpending (Compose.cg c) = [] -> ~ ComposeLive.CProg c ->
+  forall t, ComposeMeasure.publish_pending (Reg.thr (Compose.cg c) t) = false.
+Proof. exact ComposeMeasure.stuck_means_published. Qed.
+Print Assumptions C05_stuck_means_published.
